@@ -633,6 +633,12 @@ def normalise_control(stmts: list[ast.stmt]) -> list[ast.stmt]:
                 for v in reversed(test.values):
                     inner = [ast.copy_location(ast.If(test=v, body=clone_block(body), orelse=inner), st)]
                 return out + normalise_control(inner + rest)
+            if isinstance(test, ast.BoolOp) and isinstance(test.op, ast.And) and orelse and not _only_terminator(orelse) and _size(orelse) <= 6:
+                # if a and b: X else: E  ==  if a: (if b: X else: E) else: E   (E is small)
+                inner = body
+                for v in reversed(test.values):
+                    inner = [ast.copy_location(ast.If(test=v, body=inner, orelse=clone_block(orelse)), st)]
+                return out + normalise_control(inner + rest)
             if isinstance(test, ast.BoolOp) and isinstance(test.op, ast.And) and _only_terminator(orelse):
                 # if a and b: X else: T  ==  if a: (if b: X else: T) else: T
                 inner = body
@@ -846,6 +852,66 @@ def _loops_to_comprehensions(stmts: list[ast.stmt]) -> list[ast.stmt]:
     return out
 
 
+def _simple_sequence(e: ast.AST) -> bool:
+    """A plain name / attribute chain / constant-free subscript of those: re-evaluating it is harmless."""
+    if isinstance(e, ast.Name):
+        return True
+    if isinstance(e, ast.Attribute):
+        return _simple_sequence(e.value)
+    if isinstance(e, ast.Subscript):
+        return _simple_sequence(e.value) and all(isinstance(n, (ast.Name, ast.Constant, ast.Slice, ast.Tuple, ast.Subscript, ast.Load, ast.Attribute, ast.UnaryOp,
+                                                                ast.USub, ast.BinOp, ast.Add, ast.Sub, ast.Mult)) for n in ast.walk(e.slice))
+    return False
+
+
+_FRESH = [0]
+
+
+def _index_loops(stmts: list[ast.stmt]) -> list[ast.stmt]:
+    """`for i, x in enumerate(S)` and `for a, b in zip(A, B)` over plain sequences are index loops:
+    `for i in range(len(S)): x = S[i]`."""
+    for st in stmts:
+        for field in ("body", "orelse", "finalbody"):
+            sub = getattr(st, field, None)
+            if isinstance(sub, list) and sub and isinstance(sub[0], ast.stmt) and not isinstance(st, (ast.FunctionDef, ast.ClassDef)):
+                setattr(st, field, _index_loops(sub))
+        if isinstance(st, ast.Try):
+            for h in st.handlers:
+                h.body = _index_loops(h.body)
+        if not (isinstance(st, ast.For) and isinstance(st.iter, ast.Call) and not st.orelse):
+            continue
+        fn_ = dotted(st.iter.func)
+        if fn_ == "enumerate" and isinstance(st.target, ast.Tuple) and len(st.target.elts) == 2 and isinstance(st.target.elts[0], ast.Name) and \
+                1 <= len(st.iter.args) <= 2 and _simple_sequence(st.iter.args[0]):
+            seq = st.iter.args[0]
+            start = st.iter.args[1] if len(st.iter.args) == 2 else next((k.value for k in st.iter.keywords if k.arg == "start"), None)
+            idx = st.target.elts[0].id
+            pre: list[ast.stmt] = []
+            loopvar = idx
+            if start is not None:
+                _FRESH[0] += 1
+                loopvar = f"_e{_FRESH[0]}"
+                pre.append(ast.Assign(targets=[ast.Name(id=idx, ctx=ast.Store())],
+                                      value=ast.BinOp(left=ast.Name(id=loopvar, ctx=ast.Load()), op=ast.Add(), right=clone(start))))
+            pre.append(ast.Assign(targets=[clone(st.target.elts[1])], value=ast.Subscript(value=clone(seq), slice=ast.Name(id=loopvar, ctx=ast.Load()), ctx=ast.Load())))
+            st.target = ast.Name(id=loopvar, ctx=ast.Store())
+            st.iter = ast.Call(func=ast.Name(id="range", ctx=ast.Load()), args=[ast.Call(func=ast.Name(id="len", ctx=ast.Load()), args=[clone(seq)], keywords=[])], keywords=[])
+            st.body = pre + st.body
+            ast.fix_missing_locations(st)
+        elif fn_ == "zip" and isinstance(st.target, ast.Tuple) and len(st.target.elts) == len(st.iter.args) >= 2 and \
+                all(_simple_sequence(a) for a in st.iter.args) and all(k.arg == "strict" for k in st.iter.keywords):
+            _FRESH[0] += 1
+            loopvar = f"_z{_FRESH[0]}"
+            pre = [ast.Assign(targets=[clone(t)], value=ast.Subscript(value=clone(a), slice=ast.Name(id=loopvar, ctx=ast.Load()), ctx=ast.Load()))
+                   for t, a in zip(st.target.elts, st.iter.args)]
+            first = st.iter.args[0]
+            st.target = ast.Name(id=loopvar, ctx=ast.Store())
+            st.iter = ast.Call(func=ast.Name(id="range", ctx=ast.Load()), args=[ast.Call(func=ast.Name(id="len", ctx=ast.Load()), args=[clone(first)], keywords=[])], keywords=[])
+            st.body = pre + st.body
+            ast.fix_missing_locations(st)
+    return stmts
+
+
 def _lookup_guards(stmts: list[ast.stmt]) -> list[ast.stmt]:
     """`try: t = D[k]` / `except KeyError: <leave>`  is  `if k not in D: <leave>` followed by `t = D[k]`."""
     out: list[ast.stmt] = []
@@ -983,6 +1049,8 @@ class Signature:
     def _build(self, fn_node: ast.FunctionDef, roles: list[str] | None, lenient: bool) -> None:
         self.lenient = lenient
         fn = _strip(fn_node)
+        _FRESH[0] = 0
+        fn.body = _index_loops(fn.body)
         fn.body = _lookup_guards(fn.body)
         fn.body = _loops_to_comprehensions(fn.body)
         fn.body = _ifexp_statements(fn.body)
@@ -1182,6 +1250,9 @@ class Signature:
             fact = ("raise", self._simplify_ctx(fact[1]))
         elif fact[0] in ("break", "continue"):
             fact = (fact[0], self._simplify_ctx(fact[1]), *fact[2:])
+        ctx_ = fact[4] if fact[0] == "set" else fact[2] if fact[0] in ("ret", "expr", "stmt") else fact[1]
+        if isinstance(ctx_, tuple) and any(c.startswith("if ") and ("ifnot " + c[3:]) in ctx_ for c in ctx_):
+            return   # under contradictory conditions: never executed
         if fact[0] == "set" and fact[2] == "=":
             import re as _re
             if _re.sub(r"@[\d_]+", "", fact[3]) == fact[1]:
@@ -1275,7 +1346,11 @@ class Signature:
                             self._add(("expr", self._canon(st.value, st), ctx))
                         continue
                     v = vals[i] if vals is not None else st.value
-                    tag = f"[{i}]" if vals is None and len(tgts) > 1 else ""
+                    tag = ""
+                    if vals is None and len(tgts) > 1:
+                        # element i of the unpacked value, as an expression (so that divmod(a, b)[0] is a // b, ...)
+                        v = ast.copy_location(ast.Subscript(value=st.value, slice=ast.Constant(i), ctx=ast.Load()), st.value)
+                        ast.fix_missing_locations(v)
                     tt = self._target(t, st)
                     upd = self._as_update(tt, v, st) if not tag else None
                     if upd is not None:
@@ -1435,6 +1510,9 @@ def compare(fn: FuncInfo, name: str | None = None) -> tuple[str, list[str]]:
         def extra_key(f) -> bool:
             m = _re.fullmatch(r"(\$v\d+)\['([^']+)'\]", f[1]) if f[0] == "set" else None
             return bool(m) and m.group(1) in ref_dicts and f[1] not in ref_targets and f[2] == "="
+        if all(f[0] == "ret" for f in surplus) and not any(f[0] == "ret" for f in ref.facts):
+            return "same", [f"{len(ref.facts)} effects equal to the reference definition; the function additionally returns a value "
+                            f"({sorted(f[1] for f in surplus)[:2]}) where the definition returns nothing"]
         if all(extra_key(f) for f in surplus):
             keys = sorted(f[1] for f in surplus)
             return "same", [f"{len(ref.facts)} effects equal to the reference definition; additional entries {keys} are stored in a dictionary the "
